@@ -334,7 +334,7 @@ class Item:
         `it` names the ghost iterator of a `for` loop (`for x in it: e`), Verus syntax, ghost only."""
         s, loops = self._loops(fname)
         if len(loops) < n:
-            raise ExtractError('%s: loop #%d not found (have %d)' % (self.name, n, len(loops)))
+            return self._lost('loop #%d of %s not found (have %d): invariant not attached' % (n, fname or self.name, len(loops)))
         st, ob = loops[n - 1]
         self._ins(ob, '\n' + inv.rstrip() + '\n')
         if it:
@@ -369,7 +369,7 @@ class Item:
         """Ghost text immediately before the n-th loop (e.g. ghost snapshots of the loop's entry state)."""
         s, loops = self._loops(fname)
         if len(loops) < n:
-            raise ExtractError('%s: loop #%d not found (have %d)' % (self.name, n, len(loops)))
+            return self._lost('loop #%d of %s not found: ghost text before it not attached' % (n, fname or self.name))
         self._ins(loops[n - 1][0], ghost.rstrip() + '\n', prio=1)
         return self
 
@@ -377,7 +377,7 @@ class Item:
         """Ghost text right after the opening brace of the n-th loop's body."""
         s, loops = self._loops(fname)
         if len(loops) < n:
-            raise ExtractError('%s: loop #%d not found (have %d)' % (self.name, n, len(loops)))
+            return self._lost('loop #%d of %s not found: proof hint not attached' % (n, fname or self.name))
         self._ins(loops[n - 1][1] + 1, '\n' + ghost.rstrip() + '\n', prio=-2)
         return self
 
@@ -433,7 +433,7 @@ class Item:
         and wrap an expression body in braces."""
         s, cls = self._closures(fname)
         if len(cls) < n:
-            raise ExtractError('%s: closure #%d not found (have %d)' % (self.name, n, len(cls)))
+            return self._lost('closure #%d of %s not found (have %d): closure contract not attached' % (n, fname or self.name, len(cls)))
         i, j, b, e, block = cls[n - 1]
         old_params = s.text[i + 1:j]
         if params is not None:
@@ -483,13 +483,26 @@ class Item:
         b = idx[pos + len(want) - 1] + 1
         return a, b
 
+    def _lost(self, what):
+        """A ghost splice whose anchor is gone (the code changed shape): the unit is still generated, without that
+        ghost text; the fact is reported with the result (a proof that then fails is still a failed obligation)."""
+        self.log.append(('LOST', what))
+        self.unit.lost.append('%s: %s' % (self.name, what))
+        return self
+
     def after(self, anchor, ghost, nth=0):
-        a, b = self._anchor(anchor, nth)
+        try:
+            a, b = self._anchor(anchor, nth)
+        except ExtractError as e:
+            return self._lost(str(e))
         self._ins(b, '\n' + ghost.rstrip() + '\n')
         return self
 
     def before(self, anchor, ghost, nth=0):
-        a, b = self._anchor(anchor, nth)
+        try:
+            a, b = self._anchor(anchor, nth)
+        except ExtractError as e:
+            return self._lost(str(e))
         self._ins(a, ghost.rstrip() + '\n', prio=1)
         return self
 
@@ -583,6 +596,7 @@ class Unit:
         self.chunks = []  # (kind, label, text, item-or-None)
         self.functions_under_contract = []
         self.use_lines = []
+        self.lost = []
 
     def src(self, rel):
         if rel not in self._src:
